@@ -163,6 +163,7 @@ def check_op(ctx, backend, old, op, form, new):
     else:
         B = Y.URL("http://u@h.example:81/p#f").with_query([tuple(p) for p in old])
     old_items = list(B.query.items())
+    b_str = str(B)
     pairs = [(k, decode_value(v)) for k, v in new]
     bad = any(is_bad(v) or (isinstance(v, (list, tuple)) and any(is_bad(x) or isinstance(x, (list, tuple)) for x in v)) for _k, v in pairs)
     keys_new = [k for k, _ in pairs]
@@ -216,12 +217,21 @@ def check_op(ctx, backend, old, op, form, new):
         return
     if R is None:
         return
+    ctx.check(list(B.query.items()) == old_items and str(B) == b_str, "the URL the operation was called on changed (query pairs / string form)", observed={"items": list(B.query.items()), "str": str(B)},
+              expected={"items": old_items, "str": b_str}, entry=op)
     ctx.check(snapshot_arg(arg) == before, "the argument was mutated", observed=repr(arg)[:200], expected=repr(before)[:200], entry=op)
     if model_exc is not None:
         if (op in ("with_query", "build", "extend_query") or True) and len(pairs) > 0:
             ctx.check(False, "rejected value type accepted (bool/None/NaN/inf/bytes/nested sequence)", observed=str(R), expected="TypeError/ValueError", entry=op)
         return
     got = list(R.query.items())
+    if op in ("extend_query", "update_query", "with_query") and model_exc is None and form != "kwargs":
+        try:
+            R2 = call()
+            ctx.check(list(R2.query.items()) == got and str(R2) == str(R), "repeating the same operation on the same URL gives a different result", observed=[list(R2.query.items()), str(R2)],
+                      expected=[got, str(R)], entry=op)
+        except (TypeError, ValueError):
+            pass
     if op in ("with_query", "build"):
         want = [] if exp_new is None else exp_new
         ctx.check(got == want, "with_query/build(query=): items are not exactly the argument's pairs in order", observed=got, expected=want, entry=op)
